@@ -104,7 +104,9 @@ def oracle(c, out):
             ml = max(l for l, _ in op[1])
             max_label = ml if max_label is None else max(max_label, ml)
     # ---- finiteness for opaque forecasters: observed on the real values
-    if name.startswith("opaque") and finite_data:
+    #      (domain of the opaque part: gap-free label ranges -- a reduction reads its last window by label, so a
+    #      missing label is a missing observation; the shrinker must not wander there, see DESIGN 11.4)
+    if name.startswith("opaque") and finite_data and _gap_free(c):
         bad = _opaque_nonfinite(c)
         if bad:
             fails.append((site + ":predict-not-finite", bad))
@@ -119,6 +121,14 @@ def oracle(c, out):
             if len(v1) != len(v0) or any(abs(a - b) > 1e-6 * max(1.0, abs(b)) for a, b in zip(v1, v0)):
                 fails.append((site + ":shift-equivariance-values", "forecast values change under a label shift of %d" % c["shift"]))
     return fails
+
+
+def _gap_free(c):
+    labels = set()
+    for op in c["ops"]:
+        if op[0] in ("fit", "upd", "up", "ups"):
+            labels.update(l for l, _ in op[1])
+    return bool(labels) and len(labels) == max(labels) - min(labels) + 1
 
 
 def _opaque_values(c):
@@ -208,7 +218,7 @@ def _history(rng, core, mode, long=False):
     fit_fh = None
     if mode == "r" or opq or rng.random() < 0.5:
         fit_fh = M.rand_fh(rng, "oos", cutoff if (mode == "o" and not opq and rng.random() < 0.3) else None, maxh)
-    stored_oos = fit_fh is not None
+    stored = fit_fh        # the horizon the forecaster will find stored (optional mode: the last one passed)
     ops = [["fit", y0, fit_fh]]
     nops = rng.randrange(1, 7 if long else 5)
     after_up = False     # non-window forecasters store the splitter's horizon during update_predict: ask explicitly afterwards
@@ -222,7 +232,7 @@ def _history(rng, core, mode, long=False):
                 # opaque forecasters: an absolute horizon only in the last op (it would turn in-sample after updates)
                 fh = None if (rng.random() < 0.25 and not (opq and after_up)) else M.rand_fh(rng, kind, cutoff if (not opq or _i == nops - 1) else None, maxh)
                 if fh is not None:
-                    stored_oos = kind == "oos"
+                    stored = fh if kind == "oos" else None
             ops.append(["pred", fh])
         elif r < 0.75 or (opq and (r < 0.88 or mode == "r" or fit_fh is None or fit_fh[0] != "r")):
             ov = rng.random()
@@ -240,7 +250,7 @@ def _history(rng, core, mode, long=False):
             else:
                 fh = None if (mode == "r" or (rng.random() < 0.3 and not (opq and after_up))) else M.rand_fh(rng, "oos", None, maxh)
                 if fh is not None:
-                    stored_oos = True
+                    stored = fh
                 ops.append(["ups", batch, fh, upd])
             if batch:
                 cutoff = max(cutoff, batch[-1][0]) if upd else batch[-1][0]
@@ -249,12 +259,16 @@ def _history(rng, core, mode, long=False):
             batch = M.stretch(rng, cutoff + 1, m, nan_p, False, 0.0)
             explicit = [rng.choice(["s", "e"]), sorted(rng.sample(range(1, 4), rng.choice([1, 1, 2]))),
                         rng.randrange(1, 4), rng.randrange(1, 3), None, rng.random() < 0.5]
+            # default splitter only while the stored horizon is still ahead of the cutoff (an absolute one falls behind)
+            stored_oos = stored is not None and all(v > (0 if stored[0] == "r" else cutoff) for v in stored[1])
             cv = explicit if (not stored_oos or rng.random() < 0.5) else None
             if opq:
                 # composites: explicit splitter with the horizon they were fitted with, full first window
-                m = rng.randrange(4, 9)
+                # (at least one full window + horizon, else update_predict is rejected and the next batch would leave a gap)
+                wl = rng.randrange(1, 3)
+                m = rng.randrange(wl + max(fit_fh[1]), wl + max(fit_fh[1]) + 5)
                 batch = M.stretch(rng, cutoff + 1, m, 0.0, True, 0.0)
-                cv = [rng.choice(["s", "e"]), list(fit_fh[1]), rng.randrange(1, 3), 1, None, True]
+                cv = [rng.choice(["s", "e"]), list(fit_fh[1]), wl, 1, None, True]
                 # the windows fed are positions 0..m-1-max(fh): later batches continue right after the last fed label
                 cutoff = batch[m - 1 - max(fit_fh[1])][0]
                 after_up = True
